@@ -11,6 +11,7 @@ import (
 	"os"
 	"strings"
 
+	"github.com/containerd/nri/pkg/api"
 	nrigen "github.com/containerd/nri/pkg/runtime-tools/generate"
 	rspec "github.com/opencontainers/runtime-spec/specs-go"
 	rgen "github.com/opencontainers/runtime-tools/generate"
@@ -34,6 +35,19 @@ func newGen(spec *rspec.Spec, cdi *[]string) *nrigen.Generator {
 			*cdi = append(*cdi, names...)
 			return nil
 		}))
+}
+
+// safeAdjust applies the adjustment; a panic of the generator is an outcome ("panic: ..."), not the end of the run.
+func safeAdjust(g *nrigen.Generator, a *api.ContainerAdjustment) (ge string) {
+	defer func() {
+		if r := recover(); r != nil {
+			ge = fmt.Sprint("panic: ", r)
+		}
+	}()
+	if err := g.Adjust(a); err != nil {
+		return err.Error()
+	}
+	return ""
 }
 
 func Run(in, out string, reps int) error {
@@ -71,10 +85,7 @@ func Run(in, out string, reps int) error {
 			// odd repetitions list the original's mounts children-first
 			g := newGen(abs.ToOCISpecOrd(s.Orig, i%2 == 1), &cdi)
 			ords = append(ords, abs.FromOCISpec(abs.ToOCISpecOrd(s.Orig, i%2 == 1), nil).Mord)
-			ge := ""
-			if err := g.Adjust(abs.ToAPIAdjust(s.Adj)); err != nil {
-				ge = err.Error()
-			}
+			ge := safeAdjust(g, abs.ToAPIAdjust(s.Adj))
 			results = append(results, abs.FromOCISpec(g.Config, cdi))
 			rests = append(rests, abs.Rest(g.Config))
 			gerrs = append(gerrs, ge)
